@@ -322,7 +322,8 @@ HEADER_SETS = [None, {}, {"X-Custom": "1"}, {"x-lower": "v", "X-UPPER": "V"}, {"
                {"Cache-Control": "no-store", "X-A": "a, b"}, {"content-length": "5"}, {"X-Pad": " padded value ", "X-Empty": ""}]
 COOKIES = [[], [{"name": "sid", "value": "abc"}], [{"name": "a", "value": "1"}, {"name": "b", "value": "two words", "kw": {"max_age": 60, "httponly": True}}],
            [{"name": "a", "value": "1"}, {"name": "a", "value": "2", "kw": {"path": "/x", "samesite": "strict"}}, {"name": "c", "value": "é;=", "kw": {"secure": True, "domain": "example.com"}}],
-           [{"name": "token", "value": "abc\n"}], [{"name": "t\n", "value": "\r\nSet-Cookie: x=1"}, {"name": "q", "value": "\"x; secure; y\""}], [{"name": "z", "value": "tab\there\x00"}], [{"name": "sp", "value": "two  spaces   three"}, {"name": "lead", "value": "  x  "}]]
+           [{"name": "token", "value": "abc\n"}], [{"name": "t\n", "value": "\r\nSet-Cookie: x=1"}, {"name": "q", "value": "\"x; secure; y\""}], [{"name": "z", "value": "tab\there\x00"}], [{"name": "sp", "value": "two  spaces   three"}, {"name": "lead", "value": "  x  "}],
+           [{"name": "pre", "value": '"line one\nline two"'}, {"name": '"q\r\nX: 1"', "value": '"\x7f"'}]]  # values / names that arrive already wrapped in quotes
 JSONS = [None, 1, "s", [], {}, {"a": [1, 2, {"b": None}]}, {"k": "é中"}, [1.5, True], " "]
 EVENTS = [{"data": "x"}, {"data": "a\nb", "event": "e"}, {"id": "1", "retry": 5}, {"data": "", "id": "2"}, {"data": "é", "event": "up"},
           {"data": "s" * 65528}, {"data": "s" * (131072 - 8)}]  # blocks of exactly 64 KiB / 128 KiB
@@ -353,7 +354,8 @@ def gen_response(rng, files=None, allow_sse=True, allow_raise=False):
         if rng.random() < 0.2:
             r["json_kwargs"] = rng.choice([{"indent": 2}, {"ensure_ascii": True}, {"sort_keys": True}])
     elif kind == "Redirect":
-        r["url"] = rng.choice(["/", "/next?x=1", "http://example.com/é", "//h/p#f", "/a b", "relative", "/中文?q=ü", "http://h/tab\there"])
+        r["url"] = rng.choice(["/", "/next?x=1", "http://example.com/é", "//h/p#f", "/a b", "relative", "/中文?q=ü", "http://h/tab\there",
+                              "http://exa\x7fmple.com/next", "//cdn\t.example.org/x", "http://h\x01ost:8080/", "http://us\x1fer@host/p", "http://bücher.example/ü", "//[::1]:80/x\x0b"])
         r["as_url"] = rng.random() < 0.4
         if "status" in r:
             r["status"] = rng.choice([301, 302, 303, 307, 308])
@@ -389,7 +391,7 @@ def gen_response(rng, files=None, allow_sse=True, allow_raise=False):
     if rng.random() < 0.1:
         r["delete_cookies"] = ["old"]
     if rng.random() < 0.2:
-        r["set_headers"] = [rng.choice([("X-Set", "1"), ("Vary", "Accept"), ("X-Latin", "\xe9")])]
+        r["set_headers"] = [rng.choice([("X-Set", "1"), ("Vary", "Accept"), ("X-Latin", "\xe9"), ("Vary", "Accept-Encoding"), ("Vary", "User-Agent, Accept-Language")])]
     if rng.random() < 0.15:
         r["append_headers"] = [("Vary", "Cookie"), ("Vary", "Origin")]
     if kind in ("Stream", "SSE") and rng.random() < 0.2:
@@ -404,7 +406,7 @@ def gen_response(rng, files=None, allow_sse=True, allow_raise=False):
 def gen_raw(rng):
     n = rng.choice([0, 1, 2, 3])
     hdrs = rng.choice([[], [("Content-Type", "text/plain")], [("Set-Cookie", "a=1"), ("Set-Cookie", "b=2")],
-                       [("X-A", "1"), ("X-A", "2"), ("x-b", "3")], [("X-Hop", "1"), ("X-Hop", "1")], [("Set-Cookie", "n=caf\xe9; Path=/"), ("Vary", "Accept")],
+                       [("X-A", "1"), ("X-A", "2"), ("x-b", "3")], [("X-Hop", "1"), ("X-Hop", "1")], [("Vary", "Accept-Encoding")], [("vary", "X-Accept-Version, Origin")], [("Set-Cookie", "n=caf\xe9; Path=/"), ("Vary", "Accept")],
                        [("Set-Cookie", "a=\xfc"), ("Set-Cookie", "b=2"), ("vary", "Cookie")], [("Vary", "Accept"), ("Vary", "Accept"), ("Vary", "Origin")], [("Content-Type", "text/plain"), ("Set-Cookie", "a=1; Path=/"), ("Set-Cookie", "b=2; HttpOnly")],
                        [("X-Tag", ""), ("X-Tag", "b")], [("X-Tag", "a"), ("X-Tag", ""), ("X-Empty", "")],
                        [("Set-Cookie2", "old=style"), ("Set-Cookie", "a=1")], [("Set-Cookie-Policy", "x"), ("X-Set-Cookie", "y=1")]])
